@@ -3,7 +3,8 @@
    for the blank frontend and is preserved by every operation below.  Z3, the caches, simplify() and SolverComposite's
    own fe_merge/split/combine are not in this model: they are covered by enumeration tests only. *)
 Require Import CV.Model.PyPrelude CV.Model.Ast CV.Model.Build CV.Model.Rewrite CV.Model.Frontend
-               CV.Proofs.AstLemmas CV.Proofs.BuildSound CV.Proofs.SimpSound CV.Proofs.FrontendSound.
+               CV.Proofs.AstLemmas CV.Proofs.BuildSound CV.Proofs.SimpSound CV.Proofs.FrontendSound
+               CV.Proofs.CompositeSound CV.Proofs.SplitComposite.
 From Coq Require Import ZArith Bool List Permutation.
 Import ListNotations.
 Open Scope Z_scope.
@@ -40,3 +41,11 @@ Theorem C15_split_groups : forall l,
   let sp := flatten_and l in GInv sp (fst (split_constraints l)) (length sp).
 Proof. exact split_groups. Qed.
 Print Assumptions C15_split_groups.
+
+(* ... and the split is semantically exact: a list of well-formed constraints has exactly the models of its groups together
+   with the variable-free rest (conjunctions are flattened first) *)
+Theorem C15_split_exact : forall l rho, Forall wfe l ->
+  models rho l = models rho (concat (map (group_constraints (flatten_and l)) (fst (split_constraints l))))
+                 && models rho (snd (split_constraints l)).
+Proof. exact split_exact. Qed.
+Print Assumptions C15_split_exact.
